@@ -40,6 +40,25 @@ NOT_A_PANIC = re.compile(r'^NaN on (addition|subtraction|multiplication|division
 UNWIND = re.compile(r'unwinding assertion')
 
 
+# the compiled functions each harness family puts under contract (per type unless noted)
+FAMILY_FUNCTIONS = {
+    'reg': ['Unit::iter', 'Quantity::iter_units', 'LinearScaledUnit::is_ref_unit', 'LinearScaledUnit::REF_UNIT', 'HasRefUnit::REF_UNIT',
+            'generated unit constants', 'Unit::as_qty'],
+    'ufs': ['HasRefUnit::unit_from_scale', 'LinearScaledUnit::from_scale'],
+    'fit': ['HasRefUnit::_fit'],
+    'tab': ['Unit::name', 'Unit::symbol', 'Unit::si_prefix (generated tables)'],
+    'sym': ['Unit::from_symbol', 'Quantity::unit_from_symbol'],
+    'symc': ['Unit::from_symbol', 'Quantity::unit_from_symbol'],
+    'noref': ['Quantity::add', 'Quantity::sub', 'Quantity::div', 'Quantity::eq', 'Quantity::partial_cmp', 'generated operators of types without reference unit'],
+    'total': ['HasRefUnit::convert', 'HasRefUnit::equiv_amount', 'HasRefUnit::eq', 'HasRefUnit::partial_cmp', 'HasRefUnit::add', 'HasRefUnit::sub',
+              'HasRefUnit::div', 'generated scalar operators and constructors'],
+    'totald': ['every generated derived Mul/Div (value form)'],
+    'conv': ['ConversionTable::convert', 'TEMPERATURE_CONVERTER'],
+    'si': ['SIPrefix::from_exp', 'SIPrefix::from_abbr', 'SIPrefix::name', 'SIPrefix::abbr', 'SIPrefix::exp', 'SIPrefix::iter'],
+    'si2': ['SIPrefix::from_abbr'],
+}
+
+
 def write_crate(cfg, lib_text, feats, extra_deps=''):
     d = os.path.join(BUILD, 'kani', cfg)
     os.makedirs(os.path.join(d, 'src'), exist_ok=True)
@@ -177,4 +196,4 @@ def _finish(name, res, harnesses, cached):
             und.append({'reason': f'harness {h}: status {r["status"]}'})
     return {'engine': 'kani', 'name': name, 'cmd': res.get('cmd', ''), 'cached': cached, 'wall_s': res.get('wall_s', 0),
             'solver_s': round(solver, 2), 'obligations': obs, 'failures': fails, 'undecided': und, 'records': [],
-            'bounds': bounds, 'assumptions': ['Kani 0.68 / CBMC 6.11 / CaDiCaL; checks of class "NaN on <op>" are IEEE results, not panics, and are not counted (DESIGN 2.2)']}
+            'kani_functions': FAMILY_FUNCTIONS.get(name.split(':')[1], []), 'bounds': bounds, 'assumptions': ['Kani 0.68 / CBMC 6.11 / CaDiCaL; checks of class "NaN on <op>" are IEEE results, not panics, and are not counted (DESIGN 2.2)']}
